@@ -4,7 +4,7 @@
 set -e
 V=${1:-asan}
 REPO=${VERIF_REPO:-/repo}
-B=/verif/build/$V
+B=${VERIF_BUILD:-/verif/build}/$V
 case "$V" in
   asan) SAN="-fsanitize=address,undefined -fno-sanitize-recover=undefined -fno-sanitize=vptr,nonnull-attribute";;
   # -fno-inline: race reports are classified through the binary's symbol table (no inline records there), so the
